@@ -305,7 +305,9 @@ def write_replay(pid, replay):
 
 
 def write_evidence(res: Result, br: BuildResult, level_note, partial, extra=None):
-    theorems = br.theorems if br else []
+    theorems = (br.theorems if br else []) or property_theorems(res.pid)
+    if br and br.ok and not theorems:
+        raise Infra(f"no theorem found in Properties/{res.pid}.lean")
     discharged = [t for t in theorems if t in (br.axioms if br else {}) and
                   all(a in ALLOWED_AXIOMS for a in br.axioms[t])] if (br and br.ok and not br.audit_problems) else []
     cov = {
